@@ -15,6 +15,8 @@ import PygProofs.Lemmas.WrapHistSharp
 import PygModel.Try
 import PygProofs.Lemmas.WrapHistLemmas
 import PygProofs.Lemmas.Pd2npLemmas
+import PygModel.WrapLoops
+import PygProofs.Lemmas.WrapLoopsLemmas
 
 namespace Pyg.Props.C18
 open Pyg
@@ -1597,5 +1599,862 @@ example :
     (pd2npCall ["b"] c).args = [.list [.cell (.str "~arr:f:1,2"), .cell (.int 3)]] ∧ (pd2npCall ["b"] c).kw = c.kw ∧
     c.hasIntArr = true ∧ (pd2npCall [] c).hasIntArr = false := by
   decide +kernel
+
+
+/-! ## round k6: histories that start from a NON-EMPTY cache -/
+
+/-- the dict `d` of a cache layer holds results of `g`: its keys are distinct, they are the keys of the calls `seen0`, and under
+each key it stores `g` of the FIRST call of `seen0` with that key -/
+def CacheHolds (g : Call → Val) (d : List (Val × Val)) (seen0 : List Call) : Prop :=
+  CacheInv g { cache := d, evals := d.map (·.1) } seen0
+
+/-- the empty dict -/
+theorem cacheHolds_empty (g : Call → Val) : CacheHolds g [] [] :=
+  ⟨rfl, by simp, by simp, by intro k v h; simp at h⟩
+
+/-- a dict written entry by entry from calls with pairwise different keys -/
+theorem cacheHolds_of_entries (g : Call → Val) (cs : List Call) (hn : (cs.map callKey).Nodup) :
+    CacheHolds g (cs.map fun c => (callKey c, g c)) cs := by
+  refine ⟨rfl, by simpa [List.map_map, Function.comp_def] using hn, by intro k; simp [List.map_map, Function.comp_def], ?_⟩
+  intro k v h
+  induction cs with
+  | nil => simp at h
+  | cons c cs ih =>
+    simp only [List.map_cons, List.nodup_cons] at hn
+    simp only [List.map_cons, List.lookup_cons] at h
+    by_cases hk : k = callKey c
+    · subst hk
+      simp only [beq_self_eq_true] at h
+      cases h
+      exact ⟨c, by simp [firstWith], rfl⟩
+    · have hb : (k == callKey c) = false := by simpa using hk
+      rw [hb] at h
+      obtain ⟨c0, h0, hv⟩ := ih hn.2 h
+      refine ⟨c0, ?_, hv⟩
+      simp only [firstWith, List.find?_cons] at h0 ⊢
+      have : (callKey c == k) = false := by simpa using fun e => hk e.symm
+      rw [this]; exact h0
+
+/-- what a history of calls of a non-raising function leaves in the dict, from the empty dict -/
+theorem cacheHolds_of_runCache (g : Call → Val) (pre0 : List Call) :
+    CacheHolds g (runCache (fun c => .ok (g c)) {} pre0).1.cache pre0 := by
+  have inv0 : CacheInv g {} [] := ⟨rfl, by simp, by simp, by intro k v h; simp at h⟩
+  obtain ⟨inv, _⟩ := runCache_inv g pre0 {} [] inv0
+  simp only [List.nil_append] at inv
+  exact ⟨rfl, inv.nodup, inv.keys, inv.first⟩
+
+/-- **The bare cache from ANY dict that holds results of `g`** (`cache_once_per_combination` is the case of the empty dict):
+the calls `seen0` behind the stored entries count as earlier calls. -/
+theorem cache_once_per_combination_from (g : Call → Val) (st : CacheSt) (seen0 pre : List Call) (c : Call)
+    (inv : CacheInv g st seen0) (hok : ∀ x ∈ seen0 ++ pre, Call.ok x) (hc : Call.ok c) :
+    let hist := seen0 ++ pre
+    let r := runCache (fun c => .ok (g c)) st pre
+    let r' := runCache (fun c => .ok (g c)) st (pre ++ [c])
+    r'.2 = r.2 ++ [r'.2.getLast?.getD (.ok (g c))] ∧
+    ((∀ x ∈ hist, ¬ sameComb x c) →
+      r'.1.evals.length = r.1.evals.length + 1 ∧ r'.2.getLast? = some (.ok (g c))) ∧
+    ((∃ x ∈ hist, sameComb x c) →
+      r'.1.evals.length = r.1.evals.length ∧
+      ∃ pre1 c0 pre2, hist = pre1 ++ c0 :: pre2 ∧ sameComb c0 c ∧ (∀ x ∈ pre1, ¬ sameComb x c) ∧
+        r'.2.getLast? = some (.ok (g c0))) := by
+  obtain ⟨inv, _⟩ := runCache_inv g pre st seen0 inv
+  have happ := runCache_append (fun c => Except.ok (g c)) st pre [c]
+  simp only [runCache] at happ
+  intro hist r r'
+  have hkey : ∀ x ∈ hist, (callKey x = callKey c ↔ sameComb x c) := fun x hx => callKey_eq_iff x c (hok x hx) hc
+  have hr' : r' = ((cacheCall (fun c => .ok (g c)) r.1 c).1, r.2 ++ [(cacheCall (fun c => .ok (g c)) r.1 c).2]) := happ
+  cases hl : r.1.cache.lookup (callKey c) with
+  | some v =>
+    obtain ⟨c0, hc0, hv⟩ := inv.first _ v hl
+    have hcc := cacheCall_hit (fun c => Except.ok (g c)) r.1 c v hl
+    rw [hcc] at hr'
+    have hin : ∃ x ∈ hist, sameComb x c := by
+      simp only [firstWith] at hc0
+      have := List.mem_of_find?_eq_some hc0
+      have hp := List.find?_some hc0
+      exact ⟨c0, this, (hkey c0 this).1 (by simpa using hp)⟩
+    refine ⟨by rw [hr']; simp, fun hno => ?_, fun _ => ?_⟩
+    · obtain ⟨x, hx, hs⟩ := hin
+      exact absurd hs (hno x hx)
+    · refine ⟨by rw [hr'], ?_⟩
+      simp only [firstWith] at hc0
+      obtain ⟨hp, pre1, pre2, hsplit, hbefore⟩ := List.find?_eq_some_iff_append.1 hc0
+      have hmem0 : c0 ∈ hist := by show c0 ∈ seen0 ++ pre; rw [hsplit]; simp
+      refine ⟨pre1, c0, pre2, hsplit, (hkey c0 hmem0).1 (by simpa using hp), fun x hx hs => ?_, ?_⟩
+      · have hxm : x ∈ hist := by show x ∈ seen0 ++ pre; rw [hsplit]; simp [hx]
+        have := hbefore x hx
+        exact absurd ((hkey x hxm).2 hs) (by simpa using this)
+      · rw [hr', hv]; simp
+  | none =>
+    have hcc := cacheCall_miss g r.1 c hl
+    rw [hcc] at hr'
+    have hnot : callKey c ∉ hist.map callKey := by
+      rw [← inv.keys]; exact (lookup_none_iff_not_mem _ _).1 hl
+    refine ⟨by rw [hr']; simp, fun _ => ⟨by rw [hr']; simp, by rw [hr']; simp⟩, fun ⟨x, hx, hs⟩ => ?_⟩
+    exact absurd (List.mem_map.2 ⟨x, hx, (hkey x hx).2 hs⟩) hnot
+
+
+/-- **A stack with a cache layer, from ANY state whose dict holds results of `f`** - the dict a `cache_func` constructor took
+over from the wrapper it unwrapped, filled through another stack (`stack_cache_history_rewrapped`), a dict handed in by the
+caller (`cache_func(f, cache = d)`), the state after an earlier part of the history.  `seen0` are the calls behind the stored
+entries (as the cache layer that stored them received them); they count as earlier calls:
+* no call of `seen0` and no earlier call of the history is the same combination: one more execution, the reply is `f c`;
+* otherwise no execution and the reply is the stored result of the FIRST such call (`resultOf s body c0` = what `f` returns on it). -/
+theorem stack_cache_history_from (s : Sig) (body : PDict → Res Val) (unh : Call → Bool) (p : PDict)
+    (above below : List (Cls × PDict)) (ha : noCache above) (hb : noCache below)
+    (st0 : HSt) (seen0 : List Call) (h0 : CacheHolds (resultOf s body) st0.cache seen0) (hok0 : ∀ x ∈ seen0, Call.ok x)
+    (pre : List Call) (c : Call)
+    (hpre : ∀ x ∈ pre, HistCallFor (classes (above ++ (Cls.cache, p) :: below)) s body unh above x)
+    (hc : HistCallFor (classes (above ++ (Cls.cache, p) :: below)) s body unh above c) :
+    let chain := above ++ (Cls.cache, p) :: below
+    let seen := reach s above
+    let hist := seen0 ++ pre.map seen
+    let r := runH s body unh chain st0 pre
+    let r' := runH s body unh chain st0 (pre ++ [c])
+    r'.2 = r.2 ++ [r'.2.getLast?.getD (applyFn s body c)] ∧
+    ((∀ y ∈ hist, ¬ sameComb y (seen c)) →
+      r'.1.evals.length = r.1.evals.length + 1 ∧ r'.2.getLast? = some (applyFn s body c)) ∧
+    ((∃ y ∈ hist, sameComb y (seen c)) →
+      r'.1.evals.length = r.1.evals.length ∧
+      ∃ h1 y0 h2, hist = h1 ++ y0 :: h2 ∧ sameComb y0 (seen c) ∧
+        (∀ y ∈ h1, ¬ sameComb y (seen c)) ∧ r'.2.getLast? = some (.ok (resultOf s body y0))) := by
+  intro chain seen hist r r'
+  have hKa : Within (classes (above ++ (Cls.cache, p) :: below)) above :=
+    fun w hw => within_classes _ w (by simp [hw])
+  have hKb : Within (classes (above ++ (Cls.cache, p) :: below)) below :=
+    fun w hw => within_classes _ w (by simp [hw])
+  have hv : ∀ x ∈ pre, (∃ v, ValidFor (classes (above ++ (Cls.cache, p) :: below)) s body x v) ∧
+      unh (reach s above x) = false :=
+    fun x hx => ⟨(hpre x hx).1, (hpre x hx).2.1⟩
+  have hv' : ∀ x ∈ pre ++ [c], (∃ v, ValidFor (classes (above ++ (Cls.cache, p) :: below)) s body x v) ∧
+      unh (reach s above x) = false := by
+    intro x hx
+    rcases List.mem_append.1 hx with hx | hx
+    · exact hv x hx
+    · simp only [List.mem_singleton] at hx; subst hx; exact ⟨hc.1, hc.2.1⟩
+  let cst0 : CacheSt := { cache := st0.cache, evals := st0.cache.map (·.1) }
+  obtain ⟨_, hr2, hr3⟩ := runH_refines_for _ s body unh p above below ha hb hKa hKb pre st0 cst0 rfl hv
+  obtain ⟨_, hr2', hr3'⟩ := runH_refines_for _ s body unh p above below ha hb hKa hKb (pre ++ [c]) st0 cst0 rfl hv'
+  rw [List.map_append, List.map_cons, List.map_nil] at hr2' hr3'
+  have hres : ∀ x, (∃ v, ValidFor (classes (above ++ (Cls.cache, p) :: below)) s body x v) →
+      Except.ok (resultOf s body (seen x)) = applyFn s body x := by
+    rintro x ⟨v, h⟩
+    rw [(ValidFor.reach above hKa h).resultOf_eq, h.ok]
+  obtain ⟨h1, h2, h3⟩ := cache_once_per_combination_from (resultOf s body) cst0 seen0 (pre.map seen) (seen c) h0
+    (by
+      intro y hy
+      rcases List.mem_append.1 hy with hy | hy
+      · exact hok0 y hy
+      · obtain ⟨x, hx, rfl⟩ := List.mem_map.1 hy; exact (hpre x hx).2.2) hc.2.2
+  have e2 : r.2 = (runCache (fun c => Except.ok (resultOf s body c)) cst0 (List.map seen pre)).2 := hr2
+  have e2' : r'.2 = (runCache (fun c => Except.ok (resultOf s body c)) cst0 (List.map seen pre ++ [seen c])).2 := hr2'
+  have e3 : r.1.evals.length + cst0.evals.length = st0.evals.length +
+      (runCache (fun c => Except.ok (resultOf s body c)) cst0 (List.map seen pre)).1.evals.length := hr3
+  have e3' : r'.1.evals.length + cst0.evals.length = st0.evals.length +
+      (runCache (fun c => Except.ok (resultOf s body c)) cst0 (List.map seen pre ++ [seen c])).1.evals.length := hr3'
+  refine ⟨?_, fun hno => ?_, fun hex => ?_⟩
+  · rw [e2', e2, ← hres c hc.1]; exact h1
+  · obtain ⟨hl, hlast⟩ := h2 hno
+    refine ⟨by omega, ?_⟩
+    rw [e2', ← hres c hc.1]; exact hlast
+  · obtain ⟨hl, p1, c0', p2, hsplit, hs0, hbefore, hlast⟩ := h3 hex
+    refine ⟨by omega, p1, c0', p2, hsplit, hs0, hbefore, ?_⟩
+    rw [e2']; exact hlast
+
+/-- what the stored result is in terms of `f`: for an entry stored on behalf of a valid call `x` through a stack whose layers
+above the cache are `above`, it is what `f` returns on `x` -/
+theorem stored_result_is_f (s : Sig) (body : PDict → Res Val) (K : List Cls) (above : List (Cls × PDict))
+    (hK : Within K above) (x : Call) (v : Val) (h : ValidFor K s body x v) :
+    Except.ok (resultOf s body (reach s above x)) = applyFn s body x := by
+  rw [(ValidFor.reach above hK h).resultOf_eq, h.ok]
+
+/-- **The cache survives re-wrapping**: a history `pre0` through one stack, then - the dict taken over by the constructor
+(`runSteps`) - a history `pre` and a call `c` through ANOTHER stack over the same function.  The calls of both histories, each as
+its own cache layer received it, are the earlier calls. -/
+theorem stack_cache_history_rewrapped (s : Sig) (body : PDict → Res Val) (unh : Call → Bool) (p0 p : PDict)
+    (above0 below0 above below : List (Cls × PDict))
+    (ha0 : noCache above0) (hb0 : noCache below0) (ha : noCache above) (hb : noCache below)
+    (pre0 pre : List Call) (c : Call)
+    (hpre0 : ∀ x ∈ pre0, HistCallFor (classes (above0 ++ (Cls.cache, p0) :: below0)) s body unh above0 x)
+    (hpre : ∀ x ∈ pre, HistCallFor (classes (above ++ (Cls.cache, p) :: below)) s body unh above x)
+    (hc : HistCallFor (classes (above ++ (Cls.cache, p) :: below)) s body unh above c) :
+    let chain := above ++ (Cls.cache, p) :: below
+    let seen := reach s above
+    let st0 := (runH s body unh (above0 ++ (Cls.cache, p0) :: below0) {} pre0).1
+    let hist := pre0.map (reach s above0) ++ pre.map seen
+    let r := runH s body unh chain st0 pre
+    let r' := runH s body unh chain st0 (pre ++ [c])
+    r'.2 = r.2 ++ [r'.2.getLast?.getD (applyFn s body c)] ∧
+    ((∀ y ∈ hist, ¬ sameComb y (seen c)) →
+      r'.1.evals.length = r.1.evals.length + 1 ∧ r'.2.getLast? = some (applyFn s body c)) ∧
+    ((∃ y ∈ hist, sameComb y (seen c)) →
+      r'.1.evals.length = r.1.evals.length ∧
+      ∃ h1 y0 h2, hist = h1 ++ y0 :: h2 ∧ sameComb y0 (seen c) ∧
+        (∀ y ∈ h1, ¬ sameComb y (seen c)) ∧ r'.2.getLast? = some (.ok (resultOf s body y0))) := by
+  intro chain seen st0 hist r r'
+  have hK0a : Within (classes (above0 ++ (Cls.cache, p0) :: below0)) above0 :=
+    fun w hw => within_classes _ w (by simp [hw])
+  have hK0b : Within (classes (above0 ++ (Cls.cache, p0) :: below0)) below0 :=
+    fun w hw => within_classes _ w (by simp [hw])
+  obtain ⟨hcache, _, _⟩ := runH_refines_for _ s body unh p0 above0 below0 ha0 hb0 hK0a hK0b pre0 {} {} rfl
+    (fun x hx => ⟨(hpre0 x hx).1, (hpre0 x hx).2.1⟩)
+  have h0 : CacheHolds (resultOf s body) st0.cache (pre0.map (reach s above0)) := by
+    show CacheHolds (resultOf s body) (runH s body unh (above0 ++ (Cls.cache, p0) :: below0) {} pre0).1.cache _
+    rw [hcache]
+    exact cacheHolds_of_runCache (resultOf s body) (pre0.map (reach s above0))
+  exact stack_cache_history_from s body unh p above below ha hb st0 (pre0.map (reach s above0)) h0
+    (by intro y hy; obtain ⟨x, hx, rfl⟩ := List.mem_map.1 hy; exact (hpre0 x hx).2.2) pre c hpre hc
+
+
+/-- `stack_cache_unhashable_call` with the hypotheses conditional on the classes of the stack -/
+theorem stack_cache_unhashable_call_sharp (s : Sig) (body : PDict → Res Val) (unh : Call → Bool) (p : PDict)
+    (above below : List (Cls × PDict)) (ha : noCache above) (hb : noCache below) (st : HSt) (c : Call) (v : Val)
+    (h : ValidFor (classes (above ++ (Cls.cache, p) :: below)) s body c v) (hu : unh (reach s above c) = true) :
+    let r := evalH s body unh (above ++ (Cls.cache, p) :: below) st c
+    r.2 = applyFn s body c ∧ r.1.cache = st.cache ∧ r.1.evals.length = st.evals.length + 1 := by
+  intro r
+  have hKa : Within (classes (above ++ (Cls.cache, p) :: below)) above :=
+    fun w hw => within_classes _ w (by simp [hw])
+  have hKb : Within (classes (above ++ (Cls.cache, p) :: below)) below :=
+    fun w hw => within_classes _ w (by simp [hw])
+  have := evalH_through_unh_for _ s body unh p below hb hKb above st c v ha hKa h hu
+  refine ⟨by rw [show r = _ from this, h.ok], by rw [show r = _ from this], by rw [show r = _ from this]; simp⟩
+
+/-- **Histories with hashable AND unhashable calls (finding K5 woven into the history statement).**  Any stack
+`above ++ cache :: below`, any history `pre` of valid calls of a non-raising `f` - each hashable or not for the cache layer -
+and any next valid call `c`:
+* `c` unhashable: one more execution, the reply is `f c`, the dict is untouched;
+* `c` hashable: what `stack_cache_history_sharp` says, with the HASHABLE earlier calls as the earlier calls - unhashable calls
+  before it, however many, neither answer it nor make it evaluated again. -/
+theorem stack_cache_history_mixed (s : Sig) (body : PDict → Res Val) (unh : Call → Bool) (p : PDict)
+    (above below : List (Cls × PDict)) (ha : noCache above) (hb : noCache below)
+    (pre : List Call) (c : Call)
+    (hpre : ∀ x ∈ pre, (∃ v, ValidFor (classes (above ++ (Cls.cache, p) :: below)) s body x v) ∧
+      (unh (reach s above x) = false → Call.ok (reach s above x)))
+    (hc : ∃ v, ValidFor (classes (above ++ (Cls.cache, p) :: below)) s body c v)
+    (hcok : unh (reach s above c) = false → Call.ok (reach s above c)) :
+    let chain := above ++ (Cls.cache, p) :: below
+    let seen := reach s above
+    let hashable := pre.filter fun x => !unh (seen x)
+    let r := runH s body unh chain {} pre
+    let r' := runH s body unh chain {} (pre ++ [c])
+    r'.2 = r.2 ++ [r'.2.getLast?.getD (applyFn s body c)] ∧
+    (unh (seen c) = true →
+      r'.1.evals.length = r.1.evals.length + 1 ∧ r'.2.getLast? = some (applyFn s body c) ∧ r'.1.cache = r.1.cache) ∧
+    (unh (seen c) = false →
+      ((∀ x ∈ hashable, ¬ sameComb (seen x) (seen c)) →
+        r'.1.evals.length = r.1.evals.length + 1 ∧ r'.2.getLast? = some (applyFn s body c)) ∧
+      ((∃ x ∈ hashable, sameComb (seen x) (seen c)) →
+        r'.1.evals.length = r.1.evals.length ∧
+        ∃ pre1 c0 pre2, hashable = pre1 ++ c0 :: pre2 ∧ sameComb (seen c0) (seen c) ∧
+          (∀ x ∈ pre1, ¬ sameComb (seen x) (seen c)) ∧ r'.2.getLast? = some (applyFn s body c0))) := by
+  intro chain seen hashable r r'
+  have hKa : Within (classes (above ++ (Cls.cache, p) :: below)) above :=
+    fun w hw => within_classes _ w (by simp [hw])
+  have hKb : Within (classes (above ++ (Cls.cache, p) :: below)) below :=
+    fun w hw => within_classes _ w (by simp [hw])
+  have happ : r' = ((evalH s body unh chain r.1 c).1, r.2 ++ [(evalH s body unh chain r.1 c).2]) := by
+    show runH s body unh chain {} (pre ++ [c]) = _
+    rw [runH_append]; simp [runH]; exact ⟨rfl, rfl, rfl⟩
+  have hlast : r'.2.getLast? = some (evalH s body unh chain r.1 c).2 := by rw [happ]; simp
+  have h1 : r'.2 = r.2 ++ [r'.2.getLast?.getD (applyFn s body c)] := by rw [hlast]; rw [happ]; simp
+  refine ⟨h1, fun hu => ?_, fun hu => ?_⟩
+  · obtain ⟨v, hv⟩ := hc
+    have e := evalH_through_unh_for _ s body unh p below hb hKb above r.1 c v ha hKa hv hu
+    have e' : evalH s body unh chain r.1 c = _ := e
+    refine ⟨by rw [happ, e']; simp, by rw [hlast, e', hv.ok], by rw [happ, e']⟩
+  · have hcache := runH_cache_mixed_for _ s body unh p above below ha hb hKa hKb pre {} {} rfl (fun x hx => (hpre x hx).1)
+    have h0 : CacheHolds (resultOf s body) r.1.cache (hashable.map seen) := by
+      show CacheHolds (resultOf s body) (runH s body unh chain {} pre).1.cache _
+      rw [show (runH s body unh chain {} pre).1.cache = _ from hcache]
+      exact cacheHolds_of_runCache (resultOf s body) _
+    have hmemh : ∀ x ∈ hashable, x ∈ pre ∧ unh (seen x) = false := by
+      intro x hx
+      have := List.mem_filter.1 hx
+      exact ⟨this.1, by simpa using this.2⟩
+    have hok0 : ∀ y ∈ hashable.map seen, Call.ok y := by
+      intro y hy
+      obtain ⟨x, hx, rfl⟩ := List.mem_map.1 hy
+      exact (hpre x (hmemh x hx).1).2 (hmemh x hx).2
+    obtain ⟨_, g2, g3⟩ := stack_cache_history_from s body unh p above below ha hb r.1 (hashable.map seen) h0 hok0 [] c
+      (by intro x hx; simp at hx) ⟨hc, hu, hcok hu⟩
+    simp only [List.map_nil, List.append_nil, List.nil_append, runH] at g2 g3
+    have e1 : (evalH s body unh (above ++ (Cls.cache, p) :: below) r.1 c).1 = r'.1 := by rw [happ]
+    have e2 : [(evalH s body unh (above ++ (Cls.cache, p) :: below) r.1 c).2].getLast? = r'.2.getLast? := by
+      rw [hlast]; simp; rfl
+    rw [e1, e2] at g2 g3
+    refine ⟨fun hno => g2 (by
+      intro y hy; obtain ⟨x, hx, rfl⟩ := List.mem_map.1 hy; exact hno x hx), fun ⟨x, hx, hs⟩ => ?_⟩
+    obtain ⟨hl, p1, y0, p2, hsplit, hs0, hbefore, hrep⟩ := g3 ⟨seen x, List.mem_map.2 ⟨x, hx, rfl⟩, hs⟩
+    obtain ⟨l1, l2, hpre12, hm1, hm2⟩ := List.map_eq_append_iff.1 hsplit
+    obtain ⟨c0, l2', hl2, hc0, hm2'⟩ := List.map_eq_cons_iff.1 hm2
+    subst hl2 hc0 hm1
+    have hc0mem : c0 ∈ hashable := by rw [hpre12]; simp
+    obtain ⟨v0, hv0⟩ := (hpre c0 (hmemh c0 hc0mem).1).1
+    refine ⟨hl, l1, c0, l2', hpre12, hs0, fun y hy => hbefore (seen y) (List.mem_map.2 ⟨y, hy, rfl⟩), ?_⟩
+    rw [hrep, stored_result_is_f s body _ above hKa c0 v0 hv0]
+
+/-- non-vacuity: `try_none(cache(f))`; `g(1)`, `g(array)`, `g(array)`, `g(1)`: the array calls are executed each time
+(3 executions in all), the last call is answered from the dict -/
+example :
+    let s : Sig := { params := ["a"], defaults := [], varargs := none, varkw := none }
+    let chain : List (Cls × PDict) := [(.tryValue, []), (.cache, [])]
+    let c1 : Call := { args := [.cell (.int 1)], kw := [] }
+    let ca : Call := { args := [.cell (.str "~arr:f:1,2")], kw := [] }
+    (runH s recBody Call.hasArr chain {} [c1, ca, ca, c1]).1.evals.length = 3 ∧
+    (runH s recBody Call.hasArr chain {} [c1, ca, ca, c1]).2 = [applyFn s recBody c1, applyFn s recBody ca, applyFn s recBody ca, applyFn s recBody c1] := by
+  refine ⟨by decide +kernel, by decide +kernel⟩
+
+/-- non-vacuity of `stack_cache_history_rewrapped`: `g1 = cache(f); g1(1); g2 = cache(try_none(g1)); g2(1)` - the second stack
+is `cache :: try_value`, the dict is g1's: `f` is not executed again -/
+example :
+    let s : Sig := { params := ["a"], defaults := [], varargs := none, varkw := none }
+    let c1 : Call := { args := [.cell (.int 1)], kw := [] }
+    let st0 := (runH s recBody Call.hasArr [(.cache, [])] {} [c1]).1
+    (mk .cache [] (mk .tryValue [] { chain := [(.cache, [])], base := 0 })).chain = [(.cache, []), (.tryValue, [])] ∧
+    st0.evals.length = 1 ∧
+    (runH s recBody Call.hasArr [(.cache, []), (.tryValue, [])] st0 [c1]).1.evals.length = 1 ∧
+    (runH s recBody Call.hasArr [(.cache, []), (.tryValue, [])] st0 [c1]).2 = [applyFn s recBody c1] := by
+  refine ⟨by decide +kernel, by decide +kernel, by decide +kernel, by decide +kernel⟩
+
+
+/-! ### the remaining history variants with the conditional hypotheses -/
+
+/-- `stack_cache_history_as_passed` with the hypotheses conditional on the classes of the stack -/
+theorem stack_cache_history_as_passed_sharp (s : Sig) (body : PDict → Res Val) (unh : Call → Bool) (p : PDict)
+    (above below : List (Cls × PDict)) (ha : noCache above) (hb : noCache below) (hl : Cls.loops ∉ classes above)
+    (pre : List Call) (c : Call)
+    (hpre : ∀ x ∈ pre, (∃ v, ValidFor (classes (above ++ (Cls.cache, p) :: below)) s body x v) ∧ unh x = false ∧ Call.ok x)
+    (hc : (∃ v, ValidFor (classes (above ++ (Cls.cache, p) :: below)) s body c v) ∧ unh c = false ∧ Call.ok c) :
+    let chain := above ++ (Cls.cache, p) :: below
+    let r := runH s body unh chain {} pre
+    let r' := runH s body unh chain {} (pre ++ [c])
+    ((∀ x ∈ pre, ¬ sameComb x c) →
+      r'.1.evals.length = r.1.evals.length + 1 ∧ r'.2.getLast? = some (applyFn s body c)) ∧
+    ((∃ x ∈ pre, sameComb x c) →
+      r'.1.evals.length = r.1.evals.length ∧
+      ∃ pre1 c0 pre2, pre = pre1 ++ c0 :: pre2 ∧ sameComb c0 c ∧
+        (∀ x ∈ pre1, ¬ sameComb x c) ∧ r'.2.getLast? = some (applyFn s body c0)) := by
+  have hKa : Within (classes (above ++ (Cls.cache, p) :: below)) above :=
+    fun w hw => within_classes _ w (by simp [hw])
+  have hseen : ∀ x, (∃ v, ValidFor (classes (above ++ (Cls.cache, p) :: below)) s body x v) → reach s above x = x := by
+    rintro x ⟨v, h⟩
+    exact reach_eq_self_for above hKa h hl
+  have hpre' : ∀ x ∈ pre, HistCallFor (classes (above ++ (Cls.cache, p) :: below)) s body unh above x := by
+    intro x hx
+    obtain ⟨h1, h2, h3⟩ := hpre x hx
+    exact ⟨h1, by rw [hseen x h1]; exact h2, by rw [hseen x h1]; exact h3⟩
+  have hc' : HistCallFor (classes (above ++ (Cls.cache, p) :: below)) s body unh above c :=
+    ⟨hc.1, by rw [hseen c hc.1]; exact hc.2.1, by rw [hseen c hc.1]; exact hc.2.2⟩
+  obtain ⟨_, h2, h3⟩ := stack_cache_history_sharp s body unh p above below ha hb pre c hpre' hc'
+  simp only [hseen c hc.1] at h2 h3
+  refine ⟨fun hno => h2 fun x hx => by rw [hseen x (hpre x hx).1]; exact hno x hx, fun ⟨x, hx, hs⟩ => ?_⟩
+  obtain ⟨hlen, pre1, c0, pre2, hsplit, hs0, hbefore, hlast⟩ := h3 ⟨x, hx, by rw [hseen x (hpre x hx).1]; exact hs⟩
+  have hc0 : c0 ∈ pre := by rw [hsplit]; simp
+  refine ⟨hlen, pre1, c0, pre2, hsplit, by rw [← hseen c0 (hpre c0 hc0).1]; exact hs0, fun y hy => ?_, hlast⟩
+  have hym : y ∈ pre := by rw [hsplit]; simp [hy]
+  rw [← hseen y (hpre y hym).1]; exact hbefore y hy
+
+/-- `stack_cache_history_all` with the hypotheses conditional on the classes of the stack -/
+theorem stack_cache_history_all_sharp (s : Sig) (body : PDict → Res Val) (unh : Call → Bool) (p : PDict)
+    (above below : List (Cls × PDict)) (ha : noCache above) (hb : noCache below)
+    (calls : List Call)
+    (hcalls : ∀ x ∈ calls, (∃ v, ValidFor (classes (above ++ (Cls.cache, p) :: below)) s body x v) ∧
+      unh (reach s above x) = false) :
+    let seen := reach s above
+    let r := runH s body unh (above ++ (Cls.cache, p) :: below) {} calls
+    (∀ (i : Nat) (c : Call), calls[i]? = some c →
+      ∃ pre1 c0 pre2, calls = pre1 ++ c0 :: pre2 ∧ callKey (seen c0) = callKey (seen c) ∧
+        (∀ x ∈ pre1, callKey (seen x) ≠ callKey (seen c)) ∧ r.2[i]? = some (applyFn s body c0)) ∧
+    ∃ keys : List Val, keys.Nodup ∧ (∀ k, k ∈ keys ↔ k ∈ calls.map fun c => callKey (seen c)) ∧
+      r.1.evals.length = keys.length := by
+  intro seen r
+  have hKa : Within (classes (above ++ (Cls.cache, p) :: below)) above :=
+    fun w hw => within_classes _ w (by simp [hw])
+  have hKb : Within (classes (above ++ (Cls.cache, p) :: below)) below :=
+    fun w hw => within_classes _ w (by simp [hw])
+  obtain ⟨_, hr2, hr3⟩ := runH_refines_for _ s body unh p above below ha hb hKa hKb calls {} {} rfl hcalls
+  simp only [List.length_nil, Nat.add_zero, Nat.zero_add] at hr3
+  obtain ⟨hnd, hkeys, hrep⟩ := cache_once (resultOf s body) (calls.map seen)
+  refine ⟨fun i c hi => ?_, ⟨_, hnd, fun k => by rw [hkeys k, List.map_map]; rfl, hr3⟩⟩
+  have e2 : r.2 = (runCache (fun c => Except.ok (resultOf s body c)) {} (List.map seen calls)).2 := hr2
+  have hmem : c ∈ calls := List.mem_of_getElem? hi
+  cases hf : firstWith (calls.map seen) (callKey (seen c)) with
+  | none =>
+    rw [firstWith_none_iff] at hf
+    exact absurd (List.mem_map.2 ⟨seen c, List.mem_map.2 ⟨c, hmem, rfl⟩, rfl⟩) hf
+  | some c0' =>
+    simp only [firstWith] at hf
+    obtain ⟨hk0, p1, p2, hsplit, hbefore⟩ := List.find?_eq_some_iff_append.1 hf
+    obtain ⟨l1, l2, hc12, hm1, hm2⟩ := List.map_eq_append_iff.1 hsplit
+    obtain ⟨c0, l2', hl2, hc0, _⟩ := List.map_eq_cons_iff.1 hm2
+    subst hl2 hc0 hm1
+    have hc0mem : c0 ∈ calls := by rw [hc12]; simp
+    have hk0' : callKey (seen c0) = callKey (seen c) := by simpa using hk0
+    have hnot1 : ∀ y ∈ l1, callKey (seen y) ≠ callKey (seen c) := by
+      intro y hy
+      have := hbefore (seen y) (List.mem_map.2 ⟨y, hy, rfl⟩)
+      simpa using this
+    refine ⟨l1, c0, l2', hc12, hk0', hnot1, ?_⟩
+    rw [e2, hrep]
+    simp only [List.map_map, List.getElem?_map, hi, Option.map_some, Function.comp]
+    have : firstWith (List.map seen calls) (callKey (seen c)) = some (seen c0) := by
+      simp only [firstWith]; exact hf
+    rw [this]
+    obtain ⟨v, hv⟩ := (hcalls c0 hc0mem).1
+    simp only [Option.getD_some]
+    rw [(ValidFor.reach above hKa hv).resultOf_eq, hv.ok]
+
+/-! ## round k6: try_* and exceptions that are not `Exception`s (finding K8) -/
+
+/-- when every exception is an `Exception` the code is `tryValueCode` / `tryBackCode` of the theorems above -/
+theorem tryValueCodeB_all {A E V : Type} (f : A → Except E V) (rep : Nat) (rv : Bool) (value : V) (a : A) :
+    tryValueCodeB (fun _ => true) f rep rv value a = tryValueCode f rep rv value a := by
+  induction rep with
+  | zero => unfold tryValueCodeB tryValueCode; cases f a <;> simp
+  | succ n ih => unfold tryValueCodeB tryValueCode; cases f a <;> simp [ih]
+
+theorem tryBackCodeB_all {A E V : Type} (f : A → Except E V) (first : A → V) (a : A) :
+    tryBackCodeB (fun _ => true) f first a = tryBackCode f first a := by
+  unfold tryBackCodeB tryBackCode; cases f a <;> simp
+
+/-- **try_value with `except Exception`** (any `repeat`, `return_value` true): f's result when f returns, the fallback when f
+raises an `Exception`, and the exception itself when f raises anything else -/
+theorem try_value_base_spec {A E V : Type} (catches : E → Bool) (f : A → Except E V) (rep : Nat) (value : V) (a : A) :
+    tryValueCodeB catches f rep true value a = resultOrB catches (f a) value := by
+  induction rep with
+  | zero => unfold tryValueCodeB resultOrB; cases f a <;> simp
+  | succ n ih =>
+    unfold tryValueCodeB
+    cases h : f a with
+    | ok v => simp [resultOrB]
+    | error e =>
+      simp only [ih, h]
+      cases hc : catches e <;> simp [resultOrB, hc]
+
+/-- "exactly when", as the code has it: the fallback is returned iff f raises an `Exception` (or returns the fallback itself) … -/
+theorem try_value_fallback_iff_base {A E V : Type} (catches : E → Bool) (f : A → Except E V) (rep : Nat) (value : V) (a : A) :
+    tryValueCodeB catches f rep true value a = .ok value ↔
+      (∃ e, f a = .error e ∧ catches e = true) ∨ f a = .ok value := by
+  rw [try_value_base_spec]
+  cases f a with
+  | ok v => simp [resultOrB]
+  | error e => cases hc : catches e <;> simp [resultOrB, hc]
+
+/-- … and the wrapped call raises iff f raises something that is not an `Exception` - then that very exception -/
+theorem try_value_raises_iff {A E V : Type} (catches : E → Bool) (f : A → Except E V) (rep : Nat) (value : V) (a : A) (e : E) :
+    tryValueCodeB catches f rep true value a = .error e ↔ f a = .error e ∧ catches e = false := by
+  rw [try_value_base_spec]
+  cases f a with
+  | ok v => simp [resultOrB]
+  | error e' =>
+    cases hc : catches e' with
+    | false => simp [resultOrB, hc]; rintro rfl; exact hc
+    | true => simp [resultOrB, hc]; rintro rfl; exact hc
+
+theorem try_value_no_return_base_spec {A E V : Type} (catches : E → Bool) (f : A → Except E V) (rep : Nat) (value : V)
+    (a : A) : tryValueCodeB catches f rep false value a = f a := by
+  induction rep with
+  | zero => unfold tryValueCodeB; rfl
+  | succ n ih =>
+    unfold tryValueCodeB
+    cases h : f a with
+    | ok v => rfl
+    | error e => cases hc : catches e <;> simp [ih, h]
+
+theorem try_back_base_spec {A E V : Type} (catches : E → Bool) (f : A → Except E V) (first : A → V) (a : A) :
+    tryBackCodeB catches f first a = resultOrB catches (f a) (first a) := by
+  unfold tryBackCodeB resultOrB; cases f a <;> rfl
+
+/-- **Finding K8: "return their fallback exactly when f raises" is false of the code for a `BaseException` that is not an
+`Exception`**: `try_none(f)` where `f` raises `KeyboardInterrupt` (exception `false`, not caught) raises it, for every `repeat`;
+an ordinary exception (`true`) gives the fallback. -/
+theorem try_value_base_exception_propagates (rep : Nat) :
+    tryValueCodeB (fun e : Bool => e) (fun _ : Unit => (.error false : Except Bool Nat)) rep true 0 () = .error false ∧
+    tryValueCodeB (fun e : Bool => e) (fun _ : Unit => (.error true : Except Bool Nat)) rep true 0 () = .ok 0 := by
+  constructor
+  · exact (try_value_raises_iff _ _ rep 0 () false).2 ⟨rfl, rfl⟩
+  · exact (try_value_fallback_iff_base _ _ rep 0 ()).2 (Or.inl ⟨true, rfl, rfl⟩)
+
+/-! ## round k6: `inDomain` as a hypothesis that MATTERS - the stack model whose `loops` layers loop -/
+
+/-- **Inside the domain the looping model is the forwarding model.**  When every `loops` layer of the stack receives an argument
+that is not a list / tuple / dict of one of its types (`inDomain`), `evalChainL` - whose `loops` arm is the code of
+`loops._wrapped`, one call of the next layer per element - returns what `evalChain` returns, for every stack and every call,
+valid or not, raising or not.  So every theorem about `evalChain` is, under `inDomain`, a theorem about `evalChainL`. -/
+theorem evalChainL_in_domain (s : Sig) (body : PDict → Res Val) :
+    ∀ (chain : List (Cls × PDict)) (c : Call), inDomain s chain c = true →
+      evalChainL s body chain c = evalChain s body chain c
+  | [], c, _ => by simp [evalChainL, evalChain]
+  | (.tryValue, p) :: rest, c, h => by
+      simp only [inDomain] at h
+      simp only [evalChainL, evalChain, evalChainL_in_domain s body rest c h]
+      cases evalChain s body rest c <;> rfl
+  | (.tryBack, p) :: rest, c, h => by
+      simp only [inDomain] at h
+      simp only [evalChainL, evalChain, evalChainL_in_domain s body rest c h]
+      cases evalChain s body rest c <;> rfl
+  | (.kwargsSupport, p) :: rest, c, h => by
+      simp only [inDomain] at h
+      simp only [evalChainL, evalChain, evalChainL_in_domain s body rest _ h]
+  | (.cache, p) :: rest, c, h => by
+      simp only [inDomain] at h
+      simp only [evalChainL, evalChain, evalChainL_in_domain s body rest c h]
+  | (.pd2np, p) :: rest, c, h => by
+      simp only [inDomain] at h
+      simp only [evalChainL, evalChain, evalChainL_in_domain s body rest _ h]
+  | (.loops, p) :: rest, c, h => by
+      simp only [inDomain, Bool.and_eq_true] at h
+      obtain ⟨hp, hr⟩ := h
+      have ih := evalChainL_in_domain s body rest (loopsCall s c) hr
+      cases c with
+      | mk args kw =>
+        cases args with
+        | cons a as =>
+          have hl : isLooped (typesOf p) a = false := by simpa [loopsPasses, loopsArg] using hp
+          simp only [evalChainL, evalChain, liftT_not_looped _ _ a as kw hl]
+          simpa [loopsCall, dropAxis_eq_popAxis] using ih
+        | nil =>
+          cases hps : s.params with
+          | nil =>
+            simp only [evalChainL, evalChain, hps]
+            simpa [loopsCall, hps] using ih
+          | cons top ps =>
+            cases hlk : kw.lookup top with
+            | none =>
+              simp only [evalChainL, evalChain, hps, hlk]
+              simpa [loopsCall, hps, hlk] using ih
+            | some arg =>
+              have hl : isLooped (typesOf p) arg = false := by simpa [loopsPasses, loopsArg, hps, hlk] using hp
+              simp only [evalChainL, evalChain, hps, hlk, liftT_not_looped _ _ arg [] _ hl]
+              simpa [loopsCall, hps, hlk, dropAxis_eq_popAxis] using ih
+
+/-- **Transparency of every stack, with the domain as a hypothesis** - about the model whose `loops` layers really loop: a valid
+call on which every `loops` layer receives a non-looped argument returns what `f` returns (exclusions as in
+`stack_transparent_sharp`) … -/
+theorem stack_transparent_in_domain (s : Sig) (body : PDict → Res Val) (chain : List (Cls × PDict)) (c : Call) (v : Val)
+    (hdom : inDomain s chain c = true)
+    (hd : Cls.kwargsSupport ∈ classes chain → ∀ p ∈ c.kw, p.1 ∈ s.params)
+    (hax : Cls.loops ∈ classes chain → ∀ p ∈ c.kw, p.1 ≠ "axis")
+    (hia : Cls.pd2np ∈ classes chain → c.hasIntArr = false)
+    (h : applyFn s body c = .ok v) : evalChainL s body chain c = .ok v := by
+  rw [evalChainL_in_domain s body chain c hdom]
+  exact stack_transparent_sharp s body chain c v hd hax hia h
+
+/-- … and a stack without try_* raises what `f` raises -/
+theorem stack_transparent_raise_in_domain (s : Sig) (body : PDict → Res Val) (chain : List (Cls × PDict)) (c : Call)
+    (hdom : inDomain s chain c = true)
+    (hd : Cls.kwargsSupport ∈ classes chain → ∀ p ∈ c.kw, p.1 ∈ s.params)
+    (hax : Cls.loops ∈ classes chain → ∀ p ∈ c.kw, p.1 ≠ "axis")
+    (hia : Cls.pd2np ∈ classes chain → c.hasIntArr = false)
+    (hc : ∀ w ∈ chain, w.1 ≠ .tryValue ∧ w.1 ≠ .tryBack) : evalChainL s body chain c = applyFn s body c := by
+  rw [evalChainL_in_domain s body chain c hdom]
+  exact stack_transparent_raise_sharp s body chain c hd hax hia hc
+
+/-- **The hypothesis cannot be dropped** (the reviewer's witness): `loops(types=[list])(f)([1, 2])` for `f(a)` - a valid call of
+`f`, no keyword, no array - is outside the domain and the looping model returns `[f(1), f(2)]`, not `f([1, 2])`; the forwarding
+model `evalChain` says `f([1, 2])`, which is why its theorems speak about the code only inside the domain.  With
+`types=[tuple]` the same call is inside and transparent. -/
+theorem loops_outside_domain_not_transparent :
+    let s : Sig := { params := ["a"], defaults := [], varargs := none, varkw := none }
+    let c : Call := { args := [.list [.cell (.int 1), .cell (.int 2)]], kw := [] }
+    let chain (t : String) : List (Cls × PDict) := [(.loops, [("types", .list [.cell (.str t)])])]
+    inDomain s (chain "list") c = false ∧
+    evalChainL s recBody (chain "list") c =
+      .ok (.list [.dict [("a", .cell (.int 1))], .dict [("a", .cell (.int 2))]]) ∧
+    applyFn s recBody c = .ok (.dict [("a", .list [.cell (.int 1), .cell (.int 2)])]) ∧
+    evalChain s recBody (chain "list") c = applyFn s recBody c ∧
+    inDomain s (chain "tuple") c = true ∧ evalChainL s recBody (chain "tuple") c = applyFn s recBody c := by
+  refine ⟨by decide +kernel, by decide +kernel, by decide +kernel, by decide +kernel, by decide +kernel, by decide +kernel⟩
+
+
+/-- `kwargs_support_in_stack` with the domain as a hypothesis, about the looping model -/
+theorem kwargs_support_in_stack_in_domain (s : Sig) (hv : s.varkw = none) (body : PDict → Res Val) (junk : PDict)
+    (hj : ∀ p ∈ junk, p.1 ∉ s.params) (chain : List (Cls × PDict)) (c : Call) (v : Val)
+    (hdom : inDomain s chain { c with kw := c.kw ++ junk } = true)
+    (hk : Cls.kwargsSupport ∈ classes chain)
+    (hax : Cls.loops ∈ classes chain → ∀ p ∈ c.kw ++ junk, p.1 ≠ "axis")
+    (hia : Cls.pd2np ∈ classes chain → ({ c with kw := c.kw ++ junk } : Call).hasIntArr = false)
+    (h : applyFn s body c = .ok v) : evalChainL s body chain { c with kw := c.kw ++ junk } = .ok v := by
+  rw [evalChainL_in_domain s body chain _ hdom]
+  exact kwargs_support_in_stack s hv body junk hj chain c v hk hax hia h
+
+/-- **Outside the domain the `loops` layer is property C19's lifting**: with list, tuple and dict among its types, a `loops`
+layer called with a first positional argument is `Pyg.wrapped` (the model the C19 theorems `lift_sub`, `lift_leaves`,
+`lift_shape_*`, `select_statement` … are about) of "call the rest of the stack" - so those theorems describe what a decorated
+function returns on a container, whatever else is in the stack below. -/
+theorem loops_layer_is_lifting (s : Sig) (body : PDict → Res Val) (p : PDict) (rest : List (Cls × PDict))
+    (a : Val) (as : List Val) (kw : PDict)
+    (hl : (typesOf p).contains "list" = true) (ht : (typesOf p).contains "tuple" = true)
+    (hd : (typesOf p).contains "dict" = true) :
+    evalChainL s body ((.loops, p) :: rest) { args := a :: as, kw := kw } =
+      wrapped (fun leaf args kw => evalChainL s body rest { args := leaf :: args, kw := kw }) a as kw := by
+  simp only [evalChainL]
+  exact liftT_all_eq_wrapped _ _ hl ht hd a as kw
+
+/-! ## round k6: a CACHED object in a world where other objects share its dict -/
+
+/-- **One call of a stack with a cache layer in ANY state whose dict holds results of `f`**: the dict still holds results of `f`
+afterwards (with the call added to the calls behind it), and the call is executed iff no call behind the dict is the same
+combination - else answered with the stored result of the first such call. -/
+theorem stack_cache_step_from (s : Sig) (body : PDict → Res Val) (unh : Call → Bool) (p : PDict)
+    (above below : List (Cls × PDict)) (ha : noCache above) (hb : noCache below)
+    (st0 : HSt) (seen0 : List Call) (h0 : CacheHolds (resultOf s body) st0.cache seen0) (hok0 : ∀ x ∈ seen0, Call.ok x)
+    (c : Call) (hc : HistCallFor (classes (above ++ (Cls.cache, p) :: below)) s body unh above c) :
+    let seen := reach s above
+    let e := evalH s body unh (above ++ (Cls.cache, p) :: below) st0 c
+    CacheHolds (resultOf s body) e.1.cache (seen0 ++ [seen c]) ∧
+    ((∀ y ∈ seen0, ¬ sameComb y (seen c)) → e.1.evals.length = st0.evals.length + 1 ∧ e.2 = applyFn s body c) ∧
+    ((∃ y ∈ seen0, sameComb y (seen c)) → e.1.evals.length = st0.evals.length ∧
+      ∃ h1 y0 h2, seen0 = h1 ++ y0 :: h2 ∧ sameComb y0 (seen c) ∧ (∀ y ∈ h1, ¬ sameComb y (seen c)) ∧
+        e.2 = .ok (resultOf s body y0)) := by
+  intro seen e
+  have hKa : Within (classes (above ++ (Cls.cache, p) :: below)) above :=
+    fun w hw => within_classes _ w (by simp [hw])
+  have hKb : Within (classes (above ++ (Cls.cache, p) :: below)) below :=
+    fun w hw => within_classes _ w (by simp [hw])
+  obtain ⟨_, g2, g3⟩ := stack_cache_history_from s body unh p above below ha hb st0 seen0 h0 hok0 [] c
+    (by intro x hx; simp at hx) hc
+  simp only [List.map_nil, List.append_nil, List.nil_append, runH, List.getLast?_singleton, Option.some.injEq] at g2 g3
+  refine ⟨?_, g2, g3⟩
+  let cst0 : CacheSt := { cache := st0.cache, evals := st0.cache.map (·.1) }
+  obtain ⟨hcache, _, _⟩ := runH_refines_for _ s body unh p above below ha hb hKa hKb [c] st0 cst0 rfl
+    (by intro x hx; simp at hx; subst hx; exact ⟨hc.1, hc.2.1⟩)
+  simp only [runH, List.map_cons, List.map_nil] at hcache
+  obtain ⟨inv, _⟩ := runCache_inv (resultOf s body) [seen c] cst0 seen0 h0
+  show CacheHolds (resultOf s body) (evalH s body unh (above ++ (Cls.cache, p) :: below) st0 c).1.cache _
+  rw [hcache]
+  exact ⟨rfl, inv.nodup, inv.keys, inv.first⟩
+
+
+/-- the dict the cache layer of object `o` holds in world `w` (empty when it has not been created yet) -/
+def dictOf (w : MWorld) (o : MObj) : List (Val × Val) :=
+  match o.cid with
+  | some i => w.caches[i]?.getD []
+  | Option.none => []
+
+/-- **A cached object in ANY world** - whatever objects were built from it or it was built from, whichever of them share its
+dict and were called before: if the dict of its cache layer holds results of `f` (calls `seen0` behind the entries), a valid
+hashable call is executed iff no call behind the dict is the same combination, otherwise it is answered with the stored result
+of the first such call; and afterwards the dict (now an item of this object: `cid`) still holds results of `f`, the call added.
+The last conclusion is the hypothesis again, for the next call of ANY object whose cache layer holds this dict (the objects
+built from this one after its first call, and the ones it was built from): an invariant along every history of valid calls. -/
+theorem cached_object_call_in_any_world (s : Sig) (body : PDict → Res Val) (unh : Call → Bool) (w : MWorld)
+    (j : Nat) (o : MObj) (c : Call) (p : PDict) (above below : List (Cls × PDict))
+    (ho : w.objs[j]? = some o) (hch : o.chain = above ++ (Cls.cache, p) :: below)
+    (ha : noCache above) (hb : noCache below) (hwf : ∀ i, o.cid = some i → i < w.caches.length)
+    (seen0 : List Call) (h0 : CacheHolds (resultOf s body) (dictOf w o) seen0) (hok0 : ∀ x ∈ seen0, Call.ok x)
+    (hc : HistCallFor (classes (above ++ (Cls.cache, p) :: below)) s body unh above c) :
+    let seen := reach s above
+    ∃ w' r n o', stepM s body unh w (.call j c) = some (w', some (r, n)) ∧
+      w'.objs[j]? = some o' ∧ o'.chain = o.chain ∧
+      CacheHolds (resultOf s body) (dictOf w' o') (seen0 ++ [seen c]) ∧
+      ((∀ y ∈ seen0, ¬ sameComb y (seen c)) → n = w.evals.length + 1 ∧ r = applyFn s body c) ∧
+      ((∃ y ∈ seen0, sameComb y (seen c)) → n = w.evals.length ∧
+        ∃ h1 y0 h2, seen0 = h1 ++ y0 :: h2 ∧ sameComb y0 (seen c) ∧ (∀ y ∈ h1, ¬ sameComb y (seen c)) ∧
+          r = .ok (resultOf s body y0)) := by
+  intro seen
+  have hcl : hasCacheLayer o.chain = true := by simp [hasCacheLayer, hch]
+  have hj : j < w.objs.length := (List.getElem?_eq_some_iff.1 ho).1
+  cases hcid : o.cid with
+  | none =>
+    have hd : dictOf w o = [] := by simp [dictOf, hcid]
+    rw [hd] at h0
+    obtain ⟨k1, k2, k3⟩ := stack_cache_step_from s body unh p above below ha hb
+      { cache := [], evals := w.evals } seen0 h0 hok0 c hc
+    let e := evalH s body unh o.chain { cache := [], evals := w.evals } c
+    have he : e = evalH s body unh (above ++ (Cls.cache, p) :: below) { cache := [], evals := w.evals } c := by
+      show evalH s body unh o.chain _ c = _; rw [hch]
+    refine ⟨{ objs := w.objs.set j { o with cid := some w.caches.length },
+              caches := (w.caches ++ [[]]).set w.caches.length e.1.cache, evals := e.1.evals },
+            e.2, e.1.evals.length, { o with cid := some w.caches.length }, ?_, by simp [hj], rfl, ?_, ?_, ?_⟩
+    · simp only [stepM, ho, hcl, if_true, hcid]
+      simp [e]
+    · simp only [dictOf]
+      simpa [he] using k1
+    · intro hno; simpa [he] using k2 hno
+    · intro hex; simpa [he] using k3 hex
+  | some i =>
+    have hi := hwf i hcid
+    have hd : dictOf w o = w.caches[i]?.getD [] := by simp [dictOf, hcid]
+    rw [hd] at h0
+    obtain ⟨k1, k2, k3⟩ := stack_cache_step_from s body unh p above below ha hb
+      { cache := w.caches[i]?.getD [], evals := w.evals } seen0 h0 hok0 c hc
+    let e := evalH s body unh o.chain { cache := w.caches[i]?.getD [], evals := w.evals } c
+    have he : e = evalH s body unh (above ++ (Cls.cache, p) :: below) { cache := w.caches[i]?.getD [], evals := w.evals } c := by
+      show evalH s body unh o.chain _ c = _; rw [hch]
+    refine ⟨{ objs := w.objs.set j { o with cid := some i },
+              caches := w.caches.set i e.1.cache, evals := e.1.evals },
+            e.2, e.1.evals.length, { o with cid := some i }, ?_, by simp [hj], rfl, ?_, ?_, ?_⟩
+    · simp only [stepM, ho, hcl, if_true, hcid]
+      simp [e]
+    · simp only [dictOf]
+      simpa [he, hi] using k1
+    · intro hno; simpa [he] using k2 hno
+    · intro hex; simpa [he] using k3 hex
+
+/-! ## round k6: the world invariant - every dict of every reachable world holds results of `f` -/
+
+/-- a well-formed world: chains as the constructor builds them, every `cid` names an existing dict, and every dict holds results of
+`g` (for some calls `seen` behind its entries, all with python dicts as arguments) -/
+structure WorldOk (g : Call → Val) (w : MWorld) : Prop where
+  chains : ∀ o ∈ w.objs, (classes o.chain).Nodup
+  cids : ∀ o ∈ w.objs, ∀ i, o.cid = some i → i < w.caches.length
+  holds : ∀ (i : Nat) (d : List (Val × Val)), w.caches[i]? = some d → ∃ seen, CacheHolds g d seen ∧ ∀ x ∈ seen, Call.ok x
+
+/-- the world before anything is built: the plain function, no dict -/
+theorem worldOk_init (g : Call → Val) : WorldOk g {} :=
+  ⟨by intro o ho; simp at ho; subst ho; simp [classes], by intro o ho i hi; simp at ho; subst ho; simp at hi,
+   by intro i d h; simp at h⟩
+
+/-- a step the theorems speak about: a call of an object WITH a cache layer is valid and hashable for that object's stack -/
+def StepValid (s : Sig) (body : PDict → Res Val) (unh : Call → Bool) (w : MWorld) : MStep → Prop
+  | .wrap _ _ _ => True
+  | .call j c => ∀ o above p below, w.objs[j]? = some o → o.chain = above ++ (Cls.cache, p) :: below →
+      HistCallFor (classes (above ++ (Cls.cache, p) :: below)) s body unh above c
+
+theorem hasCacheLayer_not_noCache {ch : List (Cls × PDict)} (h : hasCacheLayer ch = true) (hn : noCache ch) : False := by
+  simp only [hasCacheLayer, List.any_eq_true] at h
+  obtain ⟨x, hx, hc⟩ := h
+  exact hn x hx (by simpa using hc)
+
+/-- the new world after a call of a cached object, explicitly -/
+theorem stepM_call_cached (s : Sig) (body : PDict → Res Val) (unh : Call → Bool) (w : MWorld) (j : Nat) (o : MObj) (c : Call)
+    (ho : w.objs[j]? = some o) (hcl : hasCacheLayer o.chain = true) :
+    let i := o.cid.getD w.caches.length
+    let caches := if o.cid.isSome then w.caches else w.caches ++ [[]]
+    let e := evalH s body unh o.chain { cache := caches[i]?.getD [], evals := w.evals } c
+    stepM s body unh w (.call j c) =
+      some ({ objs := w.objs.set j { o with cid := some i }, caches := caches.set i e.1.cache, evals := e.1.evals },
+            some (e.2, e.1.evals.length)) := by
+  cases hcid : o.cid with
+  | none => simp [stepM, ho, hcl, hcid]
+  | some i => simp [stepM, ho, hcl, hcid]
+
+/-- the invariant after a call of a cached object, for the dict list `caches` and index `i` the call works with -/
+theorem worldOk_after_call (s : Sig) (body : PDict → Res Val) (unh : Call → Bool) (w : MWorld) (j : Nat) (o : MObj) (c : Call)
+    (hw : WorldOk (resultOf s body) w) (hom : o ∈ w.objs)
+    (above below : List (Cls × PDict)) (p : PDict) (hch : o.chain = above ++ (Cls.cache, p) :: below)
+    (ha : noCache above) (hb : noCache below)
+    (hc : HistCallFor (classes (above ++ (Cls.cache, p) :: below)) s body unh above c)
+    (caches : List (List (Val × Val))) (i : Nat) (hlen : w.caches.length ≤ caches.length) (hi : i < caches.length)
+    (hrest : ∀ (k : Nat) (d : List (Val × Val)), k ≠ i → caches[k]? = some d → w.caches[k]? = some d)
+    (seen0 : List Call) (h0 : CacheHolds (resultOf s body) (caches[i]?.getD []) seen0) (hok0 : ∀ x ∈ seen0, Call.ok x) :
+    let e := evalH s body unh o.chain { cache := caches[i]?.getD [], evals := w.evals } c
+    WorldOk (resultOf s body)
+      { objs := w.objs.set j { o with cid := some i }, caches := caches.set i e.1.cache, evals := e.1.evals } := by
+  intro e
+  have hstep := stack_cache_step_from s body unh p above below ha hb
+    { cache := caches[i]?.getD [], evals := w.evals } seen0 h0 hok0 c hc
+  rw [← hch] at hstep
+  refine ⟨?_, ?_, ?_⟩
+  · intro x hx
+    rcases List.mem_or_eq_of_mem_set hx with hx | rfl
+    · exact hw.chains x hx
+    · exact hw.chains o hom
+  · intro x hx k hk
+    simp only [List.length_set]
+    rcases List.mem_or_eq_of_mem_set hx with hx | rfl
+    · exact Nat.lt_of_lt_of_le (hw.cids x hx k hk) hlen
+    · simp only [Option.some.injEq] at hk; subst hk; exact hi
+  · intro k d hk
+    have hk' : (caches.set i e.1.cache)[k]? = some d := hk
+    by_cases hik : i = k
+    · subst hik
+      have h2 : (caches.set i e.1.cache)[i]? = some e.1.cache := by simp [hi]
+      rw [h2] at hk'
+      simp only [Option.some.injEq] at hk'; subst hk'
+      refine ⟨seen0 ++ [reach s above c], hstep.1, ?_⟩
+      intro x hx
+      rcases List.mem_append.1 hx with hx | hx
+      · exact hok0 x hx
+      · simp only [List.mem_singleton] at hx; subst hx; exact hc.2.2
+    · have h2 : (caches.set i e.1.cache)[k]? = caches[k]? := by simp [hik]
+      rw [h2] at hk'
+      exact hw.holds k d (hrest k d (fun e' => hik e'.symm) hk')
+
+/-- **The invariant is kept by every valid step** -/
+theorem worldOk_step (s : Sig) (body : PDict → Res Val) (unh : Call → Bool) (w w' : MWorld) (st : MStep)
+    (out : Option (Res Val × Nat)) (hw : WorldOk (resultOf s body) w) (hv : StepValid s body unh w st)
+    (hs : stepM s body unh w st = some (w', out)) : WorldOk (resultOf s body) w' := by
+  cases st with
+  | wrap cls p src =>
+    simp only [stepM] at hs
+    cases ho : w.objs[src]? with
+    | none => simp [ho] at hs
+    | some o =>
+      simp only [ho, Option.some.injEq, Prod.mk.injEq] at hs
+      obtain ⟨rfl, _⟩ := hs
+      have hom : o ∈ w.objs := List.mem_of_getElem? ho
+      refine ⟨?_, ?_, hw.holds⟩
+      · intro x hx
+        rcases List.mem_append.1 hx with hx | hx
+        · exact hw.chains x hx
+        · simp only [List.mem_singleton] at hx; subst hx
+          exact mk_nodup cls p { chain := o.chain, base := 0 } (hw.chains o hom)
+      · intro x hx i hi
+        rcases List.mem_append.1 hx with hx | hx
+        · exact hw.cids x hx i hi
+        · simp only [List.mem_singleton] at hx; subst hx
+          simp only [mkObj] at hi
+          split at hi
+          · exact hw.cids o hom i hi
+          · cases hi
+  | call j c =>
+    cases ho : w.objs[j]? with
+    | none => simp [stepM, ho] at hs
+    | some o =>
+      have hom : o ∈ w.objs := List.mem_of_getElem? ho
+      cases hcl : hasCacheLayer o.chain with
+      | false =>
+        simp only [stepM, ho, hcl, Bool.false_eq_true, if_false, Option.some.injEq, Prod.mk.injEq] at hs
+        obtain ⟨rfl, _⟩ := hs
+        exact ⟨hw.chains, hw.cids, hw.holds⟩
+      | true =>
+        obtain hnc | ⟨above, p, below, hch, ha, hb⟩ := split_at_cache o.chain (hw.chains o hom)
+        · exact (hasCacheLayer_not_noCache hcl hnc).elim
+        have hc := hv o above p below ho hch
+        rw [stepM_call_cached s body unh w j o c ho hcl] at hs
+        cases hcid : o.cid with
+        | none =>
+          simp only [hcid, Option.isSome_none, Bool.false_eq_true, if_false, Option.getD_none, Option.some.injEq,
+            Prod.mk.injEq] at hs
+          obtain ⟨rfl, _⟩ := hs
+          apply worldOk_after_call s body unh w j o c hw hom above below p hch ha hb hc (w.caches ++ [[]]) w.caches.length
+            (by simp) (by simp) ?_ [] (by simpa using cacheHolds_empty _) (by simp)
+          intro k d hk hkd
+          rw [List.getElem?_append] at hkd
+          split at hkd
+          · exact hkd
+          · rename_i hkl
+            have h1 : 1 ≤ k - w.caches.length := by omega
+            simp [List.getElem?_eq_none (l := ([[]] : List (List (Val × Val)))) (by simpa using h1)] at hkd
+        | some i =>
+          have hi := hw.cids o hom i hcid
+          simp only [hcid, Option.isSome_some, if_true, Option.getD_some, Option.some.injEq, Prod.mk.injEq] at hs
+          obtain ⟨rfl, _⟩ := hs
+          obtain ⟨seen0, h1, h2⟩ := hw.holds i w.caches[i] (by simp [hi])
+          exact worldOk_after_call s body unh w j o c hw hom above below p hch ha hb hc w.caches i (Nat.le_refl _) hi
+            (fun k d _ h => h) seen0 (by simpa [hi] using h1) h2
+
+/-- the worlds reachable by valid steps -/
+inductive Reachable (s : Sig) (body : PDict → Res Val) (unh : Call → Bool) : MWorld → MWorld → Prop where
+  | refl (w : MWorld) : Reachable s body unh w w
+  | step {w w1 w2 : MWorld} (st : MStep) (out : Option (Res Val × Nat)) (hv : StepValid s body unh w st)
+      (hs : stepM s body unh w st = some (w1, out)) (r : Reachable s body unh w1 w2) : Reachable s body unh w w2
+
+/-- **Every world reachable by valid steps is well-formed**: its dicts hold results of `f`, so `cached_object_call_in_any_world`
+applies to every later call - what a decorated function answers depends only on the calls behind the dict of its cache layer,
+whichever objects made them -/
+theorem worldOk_reachable (s : Sig) (body : PDict → Res Val) (unh : Call → Bool) (w w' : MWorld)
+    (r : Reachable s body unh w w') (hw : WorldOk (resultOf s body) w) : WorldOk (resultOf s body) w' := by
+  induction r with
+  | refl w => exact hw
+  | step st out hv hs _ ih => exact ih (worldOk_step s body unh _ _ st out hw hv hs)
+
+/-- … in particular every world built from the plain function alone -/
+theorem worldOk_from_init (s : Sig) (body : PDict → Res Val) (unh : Call → Bool) (w' : MWorld)
+    (r : Reachable s body unh {} w') : WorldOk (resultOf s body) w' :=
+  worldOk_reachable s body unh {} w' r (worldOk_init _)
 
 end Pyg.Props.C18
